@@ -268,6 +268,22 @@ def _multi(ctx, POINTS, CENTRES, ALPH, PC, PAL, label):
             ctx.nontrivial(("partial", tuple(sorted(kwargs))), section="multi")
 
 
+def refill_histories(ctx):
+    from grid.coulomb import coulomb_gaussian_p, coulomb_gaussian_s, coulomb_potential
+
+    rng = np.random.default_rng([ctx.seed, 171])
+    ra, rb = rng.uniform(0.01, 5, 9), rng.uniform(0.01, 5, 9)
+    case = {"route": "refill"}
+    for nm, fn in (("coulomb_gaussian_s", lambda r: coulomb_gaussian_s(r, 0.8)), ("coulomb_gaussian_p", lambda r: coulomb_gaussian_p(r, 1.7)),
+                   ("coulomb_gaussian_s[unnormalised]", lambda r: coulomb_gaussian_s(r, 0.8, normalized=False))):
+        lattice.refill_check(ctx, nm, case, fn, (ra,), (rb,))
+    A = (rng.normal(size=(6, 3)), rng.normal(size=(2, 3)), rng.uniform(0.5, 2, 2), rng.uniform(0.5, 3, 2))
+    B = (rng.normal(size=(6, 3)), rng.normal(size=(2, 3)), rng.uniform(0.5, 2, 2), rng.uniform(0.5, 3, 2))
+    lattice.refill_check(ctx, "coulomb_potential", case, lambda p, c, co, al: coulomb_potential(p, c, co, al), A, B)
+    lattice.refill_check(ctx, "coulomb_potential[p]", case,
+                         lambda p, c, co, al: coulomb_potential(p, c, co, al, centers_p=c, coeffs_p=co, alphas_p=al), A, B)
+
+
 def loader(ctx):
     import grid
     import grid.coulomb as cou
@@ -331,6 +347,7 @@ def run(ctx):
         ctx.merge(res)
     ctx.guarded("multi_centre", multi_centre, ctx)
     ctx.guarded("loader", loader, ctx)
+    ctx.guarded("refill", refill_histories, ctx)
     ctx.cov["alphas"] = [ALPHAS[0], ALPHAS[-1], len(ALPHAS)]
     ctx.cov["radii"] = [repr(r) for r in RS]
     ctx.exhaustive = True
@@ -341,5 +358,7 @@ def replay(ctx, case):
         ctx.merge(_single_shard((case["kind"], [case["alpha"]], ctx.seed)))
     elif case["route"].startswith("multi"):
         multi_centre(ctx)
+    elif case["route"] == "refill":
+        refill_histories(ctx)
     else:
         loader(ctx)
